@@ -11,11 +11,16 @@ Deductive part (index-level domain, symbolic H, W, kH <= H, kW <= W):
   matrix path     qslst_restore_matrix in the provenance domain, all image sizes: every channel is pinv(A^T A + lam I) applied to A^T b (row-major
                   flattening in and out, one T for the four channels); agreement with the FFT path and the accuracy of pinv on badly
                   conditioned invertible blurs at lam = 0 are bounded;
-  builders        one generic iteration of each BCCB builder places psf weights at the convolution offsets
-                  (per-iteration contracts); guards (boundary, shapes).
+  builders        both BCCB builders of the deblurring application, all image sizes and kernels no larger than the image: nested-loop invariants
+                  over lists described by ghost closed forms (dense: column (i,j) is the row-major vec of the padded kernel rolled by (i,j), so
+                  A[p*W+q, i*W+j] = centred_psf[(p-i) mod H, (q-j) mod W]; sparse: a contract on the tap comprehension, one (row, column, weight)
+                  triple per (pixel, non-zero tap) with weight = centred_psf at the periodic pixel difference, no two triples at one position, every
+                  non-zero of the convolution matrix covered); scipy's COO->CSR assembly is assumed.  Agreement of the restorations through the
+                  builders is bounded.
 Bounded stand-in: impulse response / mass / path agreement on H,W <= 6, kernels <= image, odd/even, asymmetric."""
 from __future__ import annotations
 
+import ast
 import itertools
 import os
 import math
@@ -31,6 +36,7 @@ from .. import smt
 from ..core import Bounded, Obligation, Report, run_case
 from ..libmodel import Library
 from ..sym import SInt, SReal, SBool, cur, sand, snot, sor, ssqrt
+from ..sym import as_z3bool as sym_as_bool
 from .c01 import dims
 
 P = "C17"
@@ -228,6 +234,10 @@ def deductive(rep: Report, tier):
     # ----------------------------------------------------------------------------- the matrix path, all image sizes (provenance domain)
     matrix_path(rep)
 
+    # ----------------------------------------------------------------------------- the dense BCCB builder of the application, all sizes
+    builders(rep)
+    sparse_builder(rep)
+
 
 def matrix_path(rep: Report):
     """qslst_restore_matrix in the term-level provenance domain (arrays as opaque terms, library operations as deterministic abstract functions):
@@ -306,6 +316,323 @@ def matrix_path(rep: Report):
             return out
         run_case(rep, P, Q + "qslst_restore_matrix", f"matrix_path.lam_{'zero' if lam_zero else 'positive'}", setup, post, lib=lib,
                  clauses=["returns_an_image", "shape", "every_channel_is_pinv_of_ATA_plus_lamI_applied_to_AT_b_rowmajor"], replay=None, timeout_s=20, site_obligations=False)
+
+
+def builders(rep: Report):
+    """The dense BCCB builder of the deblurring application, all image sizes and all kernels no larger than the image: nested loops over the image
+    that append one rolled copy of the padded kernel per pixel to a Python list, then np.stack(axis=1).  The list is described by a ghost closed form
+    over the PAIR (i, j) of loop counters (column i*W+j is the vector  (p,q) -> base[(p-i) mod H, (q-j) mod W]); the inner and the outer loop carry
+    'cols holds exactly the columns lexicographically before (i, j)' as invariant, and the postcondition is the definition of the circular-convolution
+    matrix with the centred kernel:   A[p*W+q, i*W+j] = centred_psf[(p-i) mod H, (q-j) mod W].   Row/column numbers are kept as mixed-radix digits
+    (row-major reshape axiom), _pad_psf is used through its proved contract."""
+    from ..interp import LoopRule
+    from ..values import SymList
+    from ..sym import OutOfReach
+    QB = "applications/image_deblurring/script_image_deblurring.py::"
+
+    class Cols(SymList):
+        """columns lexicographically before (i, j), plus what the current path appended"""
+        def __init__(self, i, j, W):
+            SymList.__init__(self, i * W + j, "cols")
+            self.ij = (i, j)
+
+    def same(a, b):
+        return cur().valid(sand(a == b)) is True if not (isinstance(a, int) and isinstance(b, int)) else a == b
+
+    def column(base, H, W, i, j):
+        """the (i, j)-th column: base shifted down by i and right by j, periodically"""
+        def fn(p, q):
+            u, v = p - i, q - j
+            return base.at(ix.ite(u < 0, u + H, u), ix.ite(v < 0, v + W, v))
+        return fn
+
+    class Outer(LoopRule):
+        modifies = ("cols", "i", "j", "shifted")
+        expects = {"target": "i"}
+
+        def establish(self, it, fr, start):
+            v = fr.vars.get("cols")
+            cur().require("inv.establish", isinstance(v, list) and not v and isinstance(start, int) and start == 0, "cols is empty before the first row", key="outer.inv.establish")
+
+        def havoc(self, it, fr, k):
+            fr.vars["cols"] = Cols(k, 0, fr.vars["W"])
+
+        def preserve(self, it, fr, k):
+            v, W = fr.vars.get("cols"), fr.vars["W"]
+            ok = isinstance(v, Cols) and not v.items and ((same(v.ij[0], k) and same(v.ij[1], W)) or (same(v.ij[0], k + 1) and same(v.ij[1], 0)))
+            cur().require("inv.preserve", ok, "after row i the list holds the columns of rows 0..i", key="outer.inv.preserve.all_columns_of_the_row_appended")
+
+    class Inner(LoopRule):
+        modifies = ("cols", "j", "shifted")
+        expects = {"target": "j"}
+
+        def establish(self, it, fr, start):
+            v = fr.vars.get("cols")
+            ok = isinstance(v, Cols) and not v.items and same(v.ij[0], fr.vars["i"]) and same(v.ij[1], 0) and isinstance(start, int) and start == 0
+            cur().require("inv.establish", ok, "at j = 0 the list holds the columns of the rows before i", key="inner.inv.establish")
+
+        def havoc(self, it, fr, k):
+            fr.vars["cols"] = Cols(fr.vars["i"], k, fr.vars["W"])
+
+        def preserve(self, it, fr, k):
+            c = cur()
+            v, H, W, i, base = fr.vars.get("cols"), fr.vars["H"], fr.vars["W"], fr.vars["i"], fr.vars["base"]
+            ok = isinstance(v, Cols) and len(v.items) == 1 and same(v.ij[0], i) and same(v.ij[1], k)
+            c.require("inv.preserve", ok, "exactly one column appended per pixel", key="inner.inv.preserve.one_append")
+            if not ok:
+                return
+            col = v.items[0]
+            shp = isinstance(col, ix.IArr) and col.ndim == 1 and same(col.vshape[0], H * W)
+            c.require("inv.preserve", shp, "the column is a vector of length H*W", key="inner.inv.preserve.column_length")
+            if shp:
+                p, q = ix.fresh_indices(c, [H, W], "r")
+                c.require("inv.preserve", ix.scal_eq(col.at(ix.Enc([(p, H), (q, W)])), column(base, H, W, i, k)(p, q)),
+                          "column (i,j) is the row-major vec of the padded kernel shifted by (i, j)", key="inner.inv.preserve.column_is_shifted_kernel")
+
+    def np_stack(parts, axis=0, _orig=None):
+        if isinstance(parts, Cols):
+            c = cur()
+            H, W, base = c.ghost["HWbase"]
+            if parts.items or axis not in (0, 1) or not ((same(parts.ij[0], H) and same(parts.ij[1], 0)) or (same(parts.ij[0], H - 1) and same(parts.ij[1], W))):
+                raise OutOfReach("np.stack of a partial column list")
+
+            def fn(vi):
+                r, cc = vi if axis == 1 else (vi[1], vi[0])
+                if not (isinstance(r, ix.Enc) and isinstance(cc, ix.Enc) and len(r.parts) == 2 and len(cc.parts) == 2):
+                    raise OutOfReach("BCCB matrix read with an unstructured index")
+                return column(base, H, W, cc.parts[0][0], cc.parts[1][0])(r.parts[0][0], r.parts[1][0])
+            return ix.IArr.from_fn([H * W, H * W], fn)
+        return _orig(parts, axis=axis)
+
+    lib = Library("idx")
+    orig = lib.np.table["stack"]
+    lib.np.table["stack"] = lambda parts, axis=0: np_stack(parts, axis, orig)
+
+    def k_pad(I, args, kwargs):
+        out = k_pad_psf(I, args, kwargs)
+        cur().ghost["HWbase"] = (args[1][0], args[1][1], out)
+        return out
+
+    def setup(I, ctx):
+        H, W, kH, kW = sizes(ctx)
+        psf = ix.input_array("psf", [kH, kW])
+        return [psf, H, W], {}, (psf, H, W, kH, kW)
+
+    def post(I, ctx, outcome, val, aux):
+        psf, H, W, kH, kW = aux
+        if outcome != "return" or not isinstance(val, ix.IArr):
+            return [("returns_a_matrix", False)]
+        out = [("returns_a_matrix", True), ("shape_is_HW_by_HW", val.ndim == 2 and same(val.vshape[0], H * W) and same(val.vshape[1], H * W))]
+        if out[-1][1]:
+            p, q = ix.fresh_indices(ctx, [H, W], "p")
+            i, j = ix.fresh_indices(ctx, [H, W], "c")
+            u, v = p - i, q - j
+            want = centred(psf, H, W, kH, kW)((ix.ite(u < 0, u + H, u), ix.ite(v < 0, v + W, v)))
+            out.append(("entry_is_centred_psf_at_the_periodic_pixel_difference", ix.scal_eq(val.at(ix.Enc([(p, H), (q, W)]), ix.Enc([(i, H), (j, W)])), want)))
+        return out
+    run_case(rep, P, QB + "_build_bccb_matrix", "dense", setup, post, lib=lib, contracts={Q + "_pad_psf": k_pad},
+             loop_rules={(QB + "_build_bccb_matrix", 0): Outer(), (QB + "_build_bccb_matrix", 1): Inner()},
+             clauses=["returns_a_matrix", "shape_is_HW_by_HW", "entry_is_centred_psf_at_the_periodic_pixel_difference"], replay=replay_restore, timeout_s=30)
+
+
+def sparse_builder(rep: Report):
+    """The sparse (COO -> CSR) BCCB builder, all image sizes and kernels no larger than the image.
+      * the comprehension that collects the taps is put under contract: for a generic (du, dv) its filter is  psf[du,dv] != 0  and its element is
+        (du, dv, psf[du,dv]); the list is then the enumeration  t -> (DU(t), DV(t), psf[DU(t),DV(t)])  of the non-zero taps (ghost functions);
+      * the three nested loops carry 'rows, cols, data hold exactly the triples of the (pixel, tap) pairs lexicographically before (i, j, t)'; per
+        innermost iteration each list gets exactly one append, and the triple is  (row of pixel (i,j), column of a pixel (i',j'), w)  with
+        w = centred_psf[(i-i') mod H, (j-j') mod W] - the definition of the convolution matrix (not the code's index expression);
+      * csr_matrix receives (data, (rows, cols)) - in that arrangement - with shape (H*W, H*W) and the complete lists;
+      * lemmas: two different taps of one pixel never go to the same column (so no two triples are summed), and every non-zero of the convolution
+        matrix has its triple.  With scipy's COO semantics (entry = sum of the triples at that position; assumed) the matrix IS the convolution matrix."""
+    from ..interp import LoopRule, Frame
+    from ..values import SymList
+    from ..sym import OutOfReach
+    QB = "applications/image_deblurring/script_image_deblurring.py::"
+    FN = QB + "_build_bccb_csr"
+    DU, DV = z3.Function("C17_tap_row", z3.IntSort(), z3.IntSort()), z3.Function("C17_tap_col", z3.IntSort(), z3.IntSort())
+
+    def same(a, b):
+        return cur().valid(sand(a == b)) is True if not (isinstance(a, int) and isinstance(b, int)) else a == b
+
+    def wrap2(x, n):
+        return ix.ite(x >= n, x - n, ix.ite(x < 0, x + n, x))
+
+    class Trip(SymList):
+        def __init__(self, i, j, t, W, L, name):
+            SymList.__init__(self, (i * W + j) * L + t, name)
+            self.ijt = (i, j, t)
+
+    def is_at(v, i, j, t, items=0):
+        return isinstance(v, Trip) and len(v.items) == items and same(v.ijt[0], i) and same(v.ijt[1], j) and same(v.ijt[2], t)
+
+    LISTS = ("rows", "cols", "data")
+
+    def comp_taps(I, e, fr):
+        c = cur()
+        psf, kH, kW = fr.vars["psf"], fr.vars["kH"], fr.vars["kW"]
+        gens = e.generators
+        ok = len(gens) == 2 and all(isinstance(g.target, ast.Name) for g in gens)
+        c.require("comp", ok, "two nested generators", key="taps.two_generators")
+        if not ok:
+            raise OutOfReach("tap comprehension restructured")
+        du0, dv0 = SInt.var(c.fresh_name("du")), SInt.var(c.fresh_name("dv"))
+        mark = len(c.path_hyps)
+        c.path_hyps.append(sym_as_bool(sand(du0 >= 0, du0 < kH, dv0 >= 0, dv0 < kW)))
+        try:
+            f2 = Frame(fr.fn, fr.module, fr)
+            r0 = I.eval(gens[0].iter, f2)
+            f2.vars[gens[0].target.id] = du0
+            r1 = I.eval(gens[1].iter, f2)
+            f2.vars[gens[1].target.id] = dv0
+            rng_ok = all(hasattr(r, "start") and same(r.start, 0) and getattr(r, "step", 1) == 1 for r in (r0, r1)) and same(r0.stop, kH) and same(r1.stop, kW) and not gens[0].ifs
+            c.require("comp", rng_ok, "the generators run over all kernel rows and all kernel columns", key="taps.ranges_cover_the_kernel")
+            tap = psf.at(du0, dv0)
+            c.path_hyps.append(sym_as_bool(sand(tap >= 0)))          # the property quantifies over non-negative kernels
+            conds = [I.eval(x, f2) for x in gens[1].ifs]
+            keep = sand(*conds) if conds else True
+            c.require("comp", sand(sor(snot(keep), tap != 0), sor(keep, tap == 0)), "a tap is kept exactly when it is non-zero", key="taps.kept_iff_nonzero")
+            el = I.eval(e.elt, f2)
+            good = isinstance(el, tuple) and len(el) == 3
+            c.require("comp", good and sand(el[0] == du0, el[1] == dv0, ix.scal_eq(el[2], tap)), "the element is (du, dv, psf[du, dv])", key="taps.element_is_position_and_weight")
+        finally:
+            del c.path_hyps[mark:]
+        L = SInt.var("n_taps")
+        c.assume(L >= 0)
+        c.ghost["taps"] = (psf, kH, kW, L)
+
+        def entry(t):
+            tz = SInt.lift(t)
+            u, v = SInt.mk(DU(tz)), SInt.mk(DV(tz))
+            cur().assume(sand(u >= 0, u < kH, v >= 0, v < kW))
+            w = psf.at(u, v)
+            cur().assume(w != 0)
+            return (u, v, w)
+        return SymList(L, "nonzero", entry=entry)
+
+    def L_of():
+        return cur().ghost["taps"][3]
+
+    class Outer(LoopRule):
+        modifies = LISTS + ("i", "j", "base_i", "r", "c", "ii", "jj")
+        expects = {"target": "i"}
+
+        def establish(self, it, fr, start):
+            for n in LISTS:
+                v = fr.vars.get(n)
+                cur().require("inv.establish", isinstance(v, list) and not v and isinstance(start, int) and start == 0, f"{n} is empty before the first pixel", key=f"outer.inv.establish.{n}")
+
+        def havoc(self, it, fr, k):
+            for n in LISTS:
+                fr.vars[n] = Trip(k, 0, 0, fr.vars["W"], L_of(), n)
+
+        def preserve(self, it, fr, k):
+            W = fr.vars["W"]
+            for n in LISTS:
+                v = fr.vars.get(n)
+                cur().require("inv.preserve", is_at(v, k + 1, 0, 0) or is_at(v, k, W, 0), f"after image row i, {n} holds the triples of rows 0..i", key=f"outer.inv.preserve.{n}")
+
+    class Mid(LoopRule):
+        modifies = LISTS + ("j", "r", "c", "ii", "jj")
+        expects = {"target": "j"}
+
+        def establish(self, it, fr, start):
+            for n in LISTS:
+                cur().require("inv.establish", is_at(fr.vars.get(n), fr.vars["i"], 0, 0) and isinstance(start, int) and start == 0, f"{n} at the start of a row", key=f"mid.inv.establish.{n}")
+
+        def havoc(self, it, fr, k):
+            for n in LISTS:
+                fr.vars[n] = Trip(fr.vars["i"], k, 0, fr.vars["W"], L_of(), n)
+
+        def preserve(self, it, fr, k):
+            i = fr.vars["i"]
+            for n in LISTS:
+                v = fr.vars.get(n)
+                cur().require("inv.preserve", is_at(v, i, k + 1, 0) or is_at(v, i, k, L_of()), f"after pixel (i,j), {n} holds the triples of all pixels up to it", key=f"mid.inv.preserve.{n}")
+
+    class Taps(LoopRule):
+        modifies = LISTS + ("r", "c", "ii", "jj")
+        expects = {"target": "(du, dv, w)"}
+
+        def establish(self, it, fr, start):
+            for n in LISTS:
+                cur().require("inv.establish", is_at(fr.vars.get(n), fr.vars["i"], fr.vars["j"], 0) and isinstance(start, int) and start == 0, f"{n} at the first tap of a pixel", key=f"taps.inv.establish.{n}")
+
+        def havoc(self, it, fr, k):
+            for n in LISTS:
+                fr.vars[n] = Trip(fr.vars["i"], fr.vars["j"], k, fr.vars["W"], L_of(), n)
+
+        def preserve(self, it, fr, k):
+            c = cur()
+            i, j, H, W = fr.vars["i"], fr.vars["j"], fr.vars["H"], fr.vars["W"]
+            psf, kH, kW, L = c.ghost["taps"]
+            ok = True
+            for n in LISTS:
+                g = is_at(fr.vars.get(n), i, j, k, items=1)
+                c.require("inv.preserve", g, f"exactly one append to {n} per (pixel, tap)", key=f"taps.inv.preserve.{n}.one_append")
+                ok = ok and g
+            if not ok:
+                return
+            r, cc, w = (fr.vars[n].items[0] for n in LISTS)
+            u, v = SInt.mk(DU(SInt.lift(k))), SInt.mk(DV(SInt.lift(k)))
+            # witness for the column's pixel (a proof hint; the obligations below are about the appended values)
+            ip, jp = wrap2(i - u + kH // 2, H), wrap2(j - v + kW // 2, W)
+            c.require("inv.preserve", sand(r == i * W + j), "the row index is the row-major number of pixel (i, j)", key="taps.inv.preserve.row_is_pixel_ij")
+            c.require("inv.preserve", sand(ip >= 0, ip < H, jp >= 0, jp < W, cc == ip * W + jp), "the column index is the row-major number of the pixel (i', j') = (i, j) - (tap offset from the kernel centre), periodically", key="taps.inv.preserve.column_is_the_pixel_at_the_convolution_offset")
+            a, b = wrap2(i - ip, H), wrap2(j - jp, W)
+            c.require("inv.preserve", ix.scal_eq(w, centred(psf, H, W, kH, kW)((a, b))),
+                      "the weight is the centred kernel at the periodic difference (i - i', j - j'): circular convolution, not correlation", key="taps.inv.preserve.weight_is_centred_psf_at_pixel_difference")
+            c.require("inv.preserve", ix.scal_eq(w, psf.at(u, v)), "the weight is the tap itself", key="taps.inv.preserve.weight_is_the_tap")
+
+    class Sparse:
+        qv_value = True
+
+        def __init__(self, data, rows, cols, shape):
+            self.data, self.rows, self.cols, self.shape = data, rows, cols, shape
+
+    def csr_matrix(a, shape=None, **kw):
+        if isinstance(a, tuple) and len(a) == 2 and isinstance(a[1], tuple) and len(a[1]) == 2 and not kw:
+            return Sparse(a[0], a[1][0], a[1][1], shape)
+        raise OutOfReach("csr_matrix form")
+
+    lib = Library("idx")
+    lib.sparse.table["csr_matrix"] = csr_matrix
+
+    def setup(I, ctx):
+        H, W, kH, kW = sizes(ctx)
+        psf = ix.input_array("psf", [kH, kW])
+        return [psf, H, W], {}, (psf, H, W, kH, kW)
+
+    def post(I, ctx, outcome, val, aux):
+        psf, H, W, kH, kW = aux
+        if outcome != "return" or not isinstance(val, Sparse):
+            return [("returns_a_sparse_matrix", False)]
+        L = L_of()
+        whole = lambda v, n: isinstance(v, Trip) and v.name == n and not v.items and (is_at(v, H, 0, 0) or is_at(v, H - 1, W, 0))
+        out = [("returns_a_sparse_matrix", True),
+               ("shape_is_HW_by_HW", isinstance(val.shape, tuple) and len(val.shape) == 2 and same(val.shape[0], H * W) and same(val.shape[1], H * W)),
+               ("built_from_all_triples_as_data_rows_cols", whole(val.data, "data") and whole(val.rows, "rows") and whole(val.cols, "cols"))]
+        # lemma 1: two different taps of one pixel land in different columns (kernel no larger than the image), so no two triples are added up
+        i, j = ix.fresh_indices(ctx, [H, W], "px")
+        (u1, v1), (u2, v2) = ix.fresh_indices(ctx, [kH, kW], "ta"), ix.fresh_indices(ctx, [kH, kW], "tb")
+        col = lambda u, v: (wrap2(i - u + kH // 2, H), wrap2(j - v + kW // 2, W))
+        (a1, b1), (a2, b2) = col(u1, v1), col(u2, v2)
+        out.append(("lemma.different_taps_of_a_pixel_go_to_different_columns", sor(sand(u1 == u2, v1 == v2), snot(sand(a1 == a2, b1 == b2)))))
+        # lemma 2: wherever the convolution matrix is non-zero, a kept tap produces exactly that entry
+        ip, jp = ix.fresh_indices(ctx, [H, W], "cp")
+        a, b = wrap2(i - ip, H), wrap2(j - jp, W)
+        want = centred(psf, H, W, kH, kW)((a, b))
+        u, v = wrap2(a + kH // 2, H), wrap2(b + kW // 2, W)
+        uu, vv = ix.ite(u < kH, u, 0), ix.ite(v < kW, v, 0)
+        (ca, cb) = col(uu, vv)
+        out.append(("lemma.every_nonzero_of_the_convolution_matrix_has_its_triple",
+                    sor(want == 0, sand(u < kH, v < kW, psf.at(uu, vv) != 0, ca == ip, cb == jp, ix.scal_eq(psf.at(uu, vv), want)))))
+        return out
+    run_case(rep, P, FN, "sparse", setup, post, lib=lib,
+             loop_rules={(FN, "comp", 0): comp_taps, (FN, 0): Outer(), (FN, 1): Mid(), (FN, 2): Taps()},
+             clauses=["returns_a_sparse_matrix", "shape_is_HW_by_HW", "built_from_all_triples_as_data_rows_cols",
+                      "lemma.different_taps_of_a_pixel_go_to_different_columns", "lemma.every_nonzero_of_the_convolution_matrix_has_its_triple"],
+             replay=replay_restore, timeout_s=30)
 
 
 # ---------------------------------------------------------------------------------------------------
@@ -531,7 +858,9 @@ def run(tier, seed):
     rep.assumptions += [
         "A3 (FFT axioms): ifft2(fft2(x) * fft2(h)) is the 2-D circular convolution x (*) h; fft2/ifft2 are linear inverse bijections; for real h, conj(fft2(h)) is the transfer function of the transposed operator - the deductive obligations are stated in the frequency domain and rely on these",
         "A1 floats as reals; np.roll(x, s)[i] = x[(i - s) mod n]; numpy slices clip",
-        "the BCCB builders and the matrix path are decided by the bounded stand-in in this version (loops over symbolic image sizes appending to Python lists)",
+        "scipy.sparse.csr_matrix((data, (rows, cols)), shape) has at (r, c) the sum of the data of the triples at (r, c) (COO semantics): the sparse builder is proved up to this assembly step",
+        "a list comprehension with a filter enumerates, in order and once each, the elements whose filter holds (Python semantics; the tap list of the sparse builder is the ghost enumeration DU, DV of the non-zero taps)",
+        "the property quantifies over non-negative kernels: the tap filter of the sparse builder is checked for taps >= 0",
     ]
     rep.trusted += ["qv engine", "z3 5.1", "library model incl. FFT registry"]
     deductive(rep, tier)
